@@ -87,3 +87,34 @@ Fixpoint first_nz (l : list nat) : nat := match l with [] => 0 | x :: r => if x 
 
 Definition check_hist (ops : list hop) (traces : list (list (nat * nat))) (ds : list done) (ims : list image) : nat * nat :=
   (cmp fs0 None true 0 ops traces ims, first_nz (map (oracle_image ds) ims)).
+
+(* ---- several families of one store: operations and, after each of them, for every pool name the id under which it is
+   registered (None = no such family) and the contents its family shows ---- *)
+From LinDBV.C01 Require Families.
+Definition fobs := list (option nat * list nat).
+Definition nat_list_eqb (a b : list nat) : bool := if list_eq_dec Nat.eq_dec a b then true else false.
+Definition oid_eqb (a b : option nat) : bool :=
+  match a, b with Some x, Some y => x =? y | None, None => true | _, _ => false end.
+Fixpoint distinct_ids (l : list (option nat)) : bool :=
+  match l with
+  | [] => true
+  | None :: l' => distinct_ids l'
+  | Some x :: l' => negb (existsb (fun y => oid_eqb y (Some x)) l') && distinct_ids l'
+  end.
+Fixpoint fam_go (pool : list nat) (s : Families.st) (ops : list Families.op) (obs : list fobs) (k : nat) (acc : nat * nat)
+  : nat * nat :=
+  match ops, obs with
+  | o :: ops', ob :: obs' =>
+    let s' := Families.step true true s o in
+    let corr_ok := (length ob =? length pool) &&
+      forallb (fun '(n, (oid, cs)) => oid_eqb (Families.lookup n (Families.fams (Families.m s'))) oid
+                                      && nat_list_eqb (Families.view s' n) cs) (combine pool ob) in
+    let orac_ok := forallb (fun '(n, (_, cs)) => nat_list_eqb cs (Families.committed s' n)) (combine pool ob)
+                   && distinct_ids (map fst ob) in
+    fam_go pool s' ops' obs' (S k)
+      ((if (fst acc =? 0) && negb corr_ok then k else fst acc), (if (snd acc =? 0) && negb orac_ok then 120 else snd acc))
+  | [], [] => acc
+  | _, _ => (if fst acc =? 0 then 999 else fst acc, snd acc)
+  end.
+Definition check_families (pool : list nat) (ops : list Families.op) (obs : list fobs) : nat * nat :=
+  fam_go pool Families.init ops obs 1 (0, 0).
